@@ -3,6 +3,7 @@
 //        every Add is repeated with k = 0, 1, 2, ... until no allocation fails; after each bad_alloc every observable
 //        (codeParam, sizes, records, lookups, Contains, addends, IsMutable, code set size) must be as before
 //        (output = the usual line + " ; af ok|FAIL ..."; the number of failures goes to stderr)
+//   D <L> <keep> <ops>                      the dynamic list over struct S1 (member-offset codes, DataColumnCodeOffset)
 //   S <sid> <keep> <op> ; ...                DataColumnListStatic over a real struct with MOMO_DATA_COLUMN_STRUCT columns
 //        op: m <member index>...  SetMutable(columns)      r  ResetMutable()
 //        output: sizeof alignof total align | offsetof.. | GetOffset.. | Contains.. ; per op: IsMutable offsets ; raw ok ; visit offs
@@ -81,6 +82,29 @@ int main()
 				if (!ok) out = "?";
 				else if (L == 4 && keep == 1) out = runCase<4, true, FailMM, true>(ops, extras, universe);
 				else if (L == 8 && keep == 0) out = runCase<8, false, FailMM, true>(ops, extras, universe);
+				else out = "?config";
+			}
+			catch (const HarnessError& e) { out = std::string("HARNESS ") + e.what; }
+		}
+		else if (first == "D")
+		{	// the DYNAMIC list over a struct with members: column codes are member offsets (DataColumnCodeOffset)
+			ull L, keep; is >> L >> keep;
+			std::vector<std::vector<ColSpec>> ops; std::vector<ColSpec> extras; std::vector<ull> universe;
+			bool ok = parseOps(is, ops, extras, universe);
+			// the codes of the case must be the codes of the real MOMO_DATA_COLUMN_STRUCT columns
+			const ull real[] = { ull(c1::a.GetCode()), ull(c1::b.GetCode()), ull(c1::s.GetCode()), ull(c1::c.GetCode()), ull(c1::k.GetCode()), ull(c1::d.GetCode()) };
+			const size_t types[] = { 0, 3, 9, 1, 12, 2 };
+			for (auto& g : ops) for (auto& c : g)
+			{
+				bool found = false;
+				for (size_t i = 0; i < 6; ++i) if (real[i] == c.code && types[i] == c.t) found = true;
+				if (!found) ok = false;
+			}
+			try
+			{
+				if (!ok) out = "?not a column of S1";
+				else if (L == 4 && keep == 0) out = runCase<4, false, MemManagerDefault, false, S1>(ops, extras, universe);
+				else if (L == 8 && keep == 1) out = runCase<8, true, MemManagerDefault, false, S1>(ops, extras, universe);
 				else out = "?config";
 			}
 			catch (const HarnessError& e) { out = std::string("HARNESS ") + e.what; }
